@@ -299,11 +299,8 @@ func (m *Mux) encError(w http.ResponseWriter, r *http.Request, err error) {
 			Code:    twirpCode(s.Code()),
 			Message: s.Message(),
 		}
-		b, err := json.Marshal(terr)
-		if err != nil {
-			panic(err) // ...
-		}
-		w.Write(b) //nolint
+		b, _ := json.Marshal(terr) // cannot fail: strings only
+		w.Write(b)                 //nolint
 		return
 
 	}
@@ -316,7 +313,9 @@ func (m *Mux) encError(w http.ResponseWriter, r *http.Request, err error) {
 
 	b, err := c.Marshal(s.Proto())
 	if err != nil {
-		panic(err) // ...
+		// The status could not be encoded (e.g. unresolvable details), send
+		// the code and message only.
+		b, _ = c.Marshal(status.New(s.Code(), s.Message()).Proto())
 	}
 	w.Write(b) //nolint
 }
